@@ -675,7 +675,6 @@ func c15Tables(c *Ctx) {
 }
 
 func c15Severity(c *Ctx) {
-	p := c.P
 	pfe := c.MustFunc("C15-R3", "internal/checks.problemFromError")
 	if pfe == nil {
 		return
@@ -684,6 +683,10 @@ func c15Severity(c *Ctx) {
 	sig := pfe.Obj.Type().(*types.Signature)
 	sParam := sig.Params().At(paramIndex(sig, "s"))
 	errParam := sig.Params().At(paramIndex(sig, "err"))
+	if c15SeverityByEvaluation(c, pfe, sParam, errParam) {
+		c15StrictFlows(c)
+		return
+	}
 	// every assignment of the problem's severity is classified by what its guards say about
 	// IsUnavailableError(err): known true (the outage region), known false, or not mentioned.
 	// The shape (switch, if chain, inverted test with the outage in the else branch) does not matter.
@@ -776,6 +779,115 @@ func c15Severity(c *Ctx) {
 		}
 	}
 	c.Check(okUse, "C15-R3", "problemFromError:problem carries the computed severity", pfe.Decl.Pos(), "local severity", "the problem does not use the severity computed from the error class")
+	c15StrictFlows(c)
+}
+
+// c15SeverityByEvaluation decides the severity table of problemFromError by evaluating the function for
+// every combination of error class (too expensive, unavailable), of "the error is a FailoverGroupError",
+// of its strictness and of the caller's severity, whatever way the function is written. It reports false
+// (and nothing else) when the function is outside what the evaluator reads.
+func c15SeverityByEvaluation(c *Ctx, pfe *FuncInfo, sParam, errParam *types.Var) bool {
+	info := pfe.Pkg.TypesInfo
+	chk := pfe.Pkg.Types.Scope()
+	sev := map[string]int64{}
+	for _, n := range []string{"Information", "Warning", "Bug", "Fatal"} {
+		k, ok := chk.Lookup(n).(*types.Const)
+		if !ok {
+			return false
+		}
+		v, exact := constant.Int64Val(constant.ToInt(k.Val()))
+		if !exact {
+			return false
+		}
+		sev[n] = v
+	}
+	type in struct {
+		exp, unavail, as, strict bool
+		s                        string
+	}
+	run := func(i in) (int64, bool) {
+		ev := &miniEval{info: info, prog: c.P, env: map[types.Object]mval{sParam: {k: mvInt, i: sev[i.s]}}}
+		ev.oracle = func(ev *miniEval, call *ast.CallExpr) (mval, bool) {
+			switch {
+			case isCallTo(info, call, "internal/promapi.IsQueryTooExpensive"):
+				return mBool(i.exp), len(call.Args) == 1 && objOf(info, call.Args[0]) == errParam
+			case isCallTo(info, call, "internal/promapi.IsUnavailableError"):
+				return mBool(i.unavail), len(call.Args) == 1 && objOf(info, call.Args[0]) == errParam
+			case isCallTo(info, call, "errors.As"):
+				if len(call.Args) == 2 && objOf(info, call.Args[0]) == errParam {
+					if u, ok := ast.Unparen(call.Args[1]).(*ast.UnaryExpr); ok && u.Op == token.AND && i.as {
+						ev.assign(u.X, mval{k: mvRec, rec: map[string]mval{}})
+					}
+					return mBool(i.as), true
+				}
+			case isCallTo(info, call, "internal/promapi.FailoverGroupError.IsStrict"), isCallTo(info, call, "internal/promapi.FailoverGroupError.URI"):
+				sel, _ := call.Fun.(*ast.SelectorExpr)
+				if sel == nil {
+					return mval{}, false
+				}
+				if r := ev.expr(sel.X); r.k != mvRec {
+					ev.fail("a method of the failover error is called where the error is not known to be one")
+					return mval{}, true
+				}
+				if sel.Sel.Name == "URI" {
+					return mStr(""), true
+				}
+				return mBool(i.strict), true
+			}
+			return mval{}, false
+		}
+		ctl := ev.block(pfe.Decl.Body.List)
+		if ev.undec != "" || ctl.kind != 'r' || ctl.ret.k != mvRec {
+			return 0, false
+		}
+		v := ctl.ret.rec["Severity"]
+		return v.i, v.k == mvInt
+	}
+	okWarn, okBug, callerOutside := true, true, true
+	bools := []bool{false, true}
+	for _, s := range []string{"Information", "Warning", "Bug", "Fatal"} {
+		for _, exp := range bools {
+			for _, un := range bools {
+				for _, as := range bools {
+					for _, strict := range bools {
+						if strict && !as {
+							continue
+						}
+						got, ok := run(in{exp, un, as, strict, s})
+						if !ok {
+							return false
+						}
+						switch {
+						case un:
+							// an outage: Warning, or Bug when the server is required
+							if got != sev["Warning"] && !(got == sev["Bug"] && strict) {
+								if got == sev["Bug"] {
+									okBug = false
+								} else {
+									okWarn = false
+								}
+							}
+						case exp:
+						default:
+							if got != sev[s] {
+								callerOutside = false
+							}
+						}
+					}
+				}
+			}
+		}
+	}
+	pos := pfe.Decl.Pos()
+	c.Check(okWarn, "C15-R3", "problemFromError:unavailable => Warning", pos, "Warning", "an unavailable server is not reported as Warning (or takes the caller's severity)")
+	c.Check(okBug, "C15-R3", "problemFromError:Bug only when the server is required", pos, "guarded by IsStrict()", "severity above Warning is assigned for unavailability without perr.IsStrict()")
+	c.Check(callerOutside, "C15-R3", "problemFromError:default case after the unavailability case", pos, "caller severity only for errors that are not outages", "an error that is not an outage is not reported with the caller's severity")
+	c.Check(okWarn && okBug && callerOutside, "C15-R3", "problemFromError:problem carries the computed severity", pos, "local severity", "the problem does not use the severity computed from the error class")
+	return true
+}
+
+func c15StrictFlows(c *Ctx) {
+	p := c.P
 	// strictness flows from PrometheusConfig.Required
 	if nfg := c.MustFunc("C15-R3", "internal/config.newFailoverGroup"); nfg != nil {
 		cinfo := nfg.Pkg.TypesInfo
@@ -930,6 +1042,7 @@ func apiErrorDiscipline(c *Ctx, rule string, fileFilter func(string) bool) {
 			if resObj != nil {
 				if _, isPtr := resObj.Type().Underlying().(*types.Pointer); isPtr {
 					nDeref, bad := 0, ""
+					c15NilFlags[resObj] = nilFlagsOf(info, fi.Decl.Body, resObj, as)
 					var callSite *Site
 					for _, sm := range fl.Find(func(x ast.Node) bool { return x == call }) {
 						s := sm.Site
@@ -1086,7 +1199,100 @@ func apiErrorDiscipline(c *Ctx, rule string, fileFilter func(string) bool) {
 	}
 }
 
+// c15NilFlags: per result variable, the local booleans that carry "the result is nil" (see nilFlagsOf)
+var c15NilFlags = map[types.Object]map[types.Object]bool{}
+
+// nilFlagsOf lists the local booleans f with one definition `f := res == nil` (possibly `res == nil || …`)
+// whose every other assignment is the constant true, in a function where res itself is assigned only by
+// the API call `bind` and from fresh `&T{…}` values or non-baseline constructors: where f is false, res is
+// not nil.
+func nilFlagsOf(info *types.Info, body *ast.BlockStmt, res types.Object, bind *ast.AssignStmt) map[types.Object]bool {
+	out := map[types.Object]bool{}
+	type st struct {
+		defs, other int
+		bad         bool
+	}
+	flags := map[types.Object]*st{}
+	resOK := true
+	mentionsNil := func(e ast.Expr) bool {
+		for _, a := range implied(e, nil, false) { // what holds when e is false
+			if x, isNil, ok := nilAtom(info, a); ok && !isNil && objOf(info, x) == res {
+				return true
+			}
+		}
+		return false
+	}
+	ast.Inspect(body, func(n ast.Node) bool {
+		as, ok := n.(*ast.AssignStmt)
+		if !ok {
+			return true
+		}
+		for i, l := range as.Lhs {
+			o := objOf(info, l)
+			if o == nil {
+				continue
+			}
+			if o == res && as != bind {
+				fresh := false
+				if i < len(as.Rhs) && len(as.Rhs) == len(as.Lhs) {
+					if u, ok := ast.Unparen(as.Rhs[i]).(*ast.UnaryExpr); ok && u.Op == token.AND {
+						_, fresh = ast.Unparen(u.X).(*ast.CompositeLit)
+					}
+				}
+				if !fresh {
+					resOK = false
+				}
+				continue
+			}
+			v, isVar := o.(*types.Var)
+			if !isVar || v.IsField() || len(as.Rhs) != len(as.Lhs) {
+				continue
+			}
+			if b, isBasic := v.Type().Underlying().(*types.Basic); !isBasic || b.Kind() != types.Bool {
+				continue
+			}
+			f := flags[o]
+			if f == nil {
+				f = &st{}
+				flags[o] = f
+			}
+			switch {
+			case as.Tok == token.DEFINE && as.Pos() > bind.End() && mentionsNil(as.Rhs[i]):
+				f.defs++
+			case exprStr(as.Rhs[i]) == "true":
+				f.other++
+			default:
+				f.bad = true
+			}
+		}
+		return true
+	})
+	if !resOK {
+		return out
+	}
+	for o, f := range flags {
+		if f.defs == 1 && !f.bad {
+			out[o] = true
+		}
+	}
+	return out
+}
+
 func c15Safe(info *types.Info, a Atom, errObj, resObj types.Object) bool {
+	// a flag that carries the nil test of the result: false means "not nil"
+	if a.Tag == nil {
+		e, t := ast.Unparen(a.E), a.Truth
+		for {
+			u, ok := e.(*ast.UnaryExpr)
+			if !ok || u.Op != token.NOT {
+				break
+			}
+			e, t = ast.Unparen(u.X), !t
+		}
+		if id, ok := e.(*ast.Ident); ok && !t && c15NilFlags[resObj][info.Uses[id]] {
+			return true
+		}
+	}
 	x, isNil, ok := nilAtom(info, a)
 	if !ok {
 		return false
